@@ -274,6 +274,63 @@ def finding_key(o, v):
     return None
 
 
+SLIM_DROP = ("case", "turn", "public", "raised", "twin_raised")
+
+
+def judge(ctx, obs):
+    """validate one batch; apply the illegal-history truncation; returns verdicts"""
+    slim = [{k: v for k, v in o.items() if k not in SLIM_DROP} for o in obs]
+    ver = ctx.validate("Trace_SeqViews", "Trace_SeqViews.cfg", slim, group="grp")
+    cut = set()
+    for o, v in zip(obs, ver):
+        if v.get("illegal") and o["grp"] not in cut:
+            cut.add(o["grp"])
+            if o["public"] == o["op"] and "transpose" not in " ".join(o["case"]["ops"]):
+                raise core.MachineryError(f"executed step is an illegal history by the specification: {o['case']} at {o['op']}")
+        if o.get("grp") in cut:
+            v["fails"] = []
+            v["skipped"] = True
+    return ver, len(cut)
+
+
+def nontrivial_key(o):
+    if o.get("kind") == "conv":
+        return ("conv", o["dir"], json.dumps(o["src"]))
+    return (o["case"]["content"], o["case"]["start"]["a"], o["case"]["start"]["r"], tuple(o["case"]["ops"]), o["op"], len(o["turn"]))
+
+
+def run_streamed(ctx, cases):
+    """thorough tier: hundreds of thousands of histories, processed in batches so that memory stays bounded"""
+    ctx.stream_begin()
+    samples, truncated, nid, ngrp = [], 0, 0, set()
+    B = 20000
+    for b0 in range(0, len(cases), B):
+        res = pmap(execute, cases[b0:b0 + B], chunk=100)
+        obs = [ln for lines in res for ln in lines]
+        if b0 == 0:
+            cl = conv_lines()
+            for i, x in enumerate(cl):
+                x["grp"] = f"conv{i}"
+            obs.extend(cl)
+        for x in obs:
+            x["id"] = nid
+            nid += 1
+        ver, cut = judge(ctx, obs)
+        truncated += cut
+        ngrp |= {o["grp"] for o in obs}
+        if not samples:
+            samples = [{"start": o["case"]["start"], "content": o["case"]["content"], "history": o["case"]["ops"],
+                        "step": o["op"], "post_rel": o["post"]["rel"][:6]} for o in obs if o.get("kind") == "step"][5:400:150]
+        ctx.stream_add(zip(obs, ver), nontrivial_key, finding_key)
+        del obs, ver, res
+    return ctx.stream_finish(
+        rule="paths of the labelled state graph written by TLC from SeqViews.tla (all paths <=3 from each of the 3 freshness "
+             "states, plus seeded random paths of length 3-12), executed step by step on real objects holding one of 6 "
+             "contents; conversion lines in both directions; processed in batches; non-trivial = distinct (content, start "
+             "state, history, step)",
+        samples=samples, extra_cov={"histories": len(ngrp), "histories_truncated_as_illegal": truncated})
+
+
 def run(ctx):
     if ctx.replay:
         o = json.load(open(ctx.replay))["observation"]
@@ -337,6 +394,8 @@ def run(ctx):
                 p.append(op)
             cases.append((len(cases), ctx.rng.randrange(len(CONTENTS)), {"a": start[0], "r": start[1]}, p, scripts,
                           mutating))
+        if ctx.thorough:
+            return run_streamed(ctx, cases)
         res = pmap(execute, cases, chunk=100)
         obs = [ln for lines in res for ln in lines]
         cl = conv_lines()
